@@ -386,6 +386,8 @@ Record handback_cfg := mkHB {
   hb_root_init : list key;                           (* subrun_result = {...} *)
   hb_root_extend_parent_is_jobinfo : bool;           (* extend_run(..., parent_job_id=job_info.job_id, ...) *)
   hb_root_extend_checks_dict : bool;                 (* the isinstance(result, dict) guard *)
+  hb_root_extend_raises_error : bool;                (* if "error" in result: raise result["error"]  (else the failure is
+                                                        handed on as a value inside the task's result) *)
   hb_root_new_key : key;                             (* subrun_result[<key>] = result of run() *)
   hb_root_final : list key;                          (* subrun_result.update({...}) *)
   hb_then : list (key * then_act)
@@ -396,8 +398,12 @@ Definition shipped_handback : handback_cfg :=
        [ (PFulfilled, [ (KResult, SrcValue); (KJobId, SrcMeta); (KCallHash, SrcMeta) ]);
          (PRejected, [ (KError, SrcError); (KJobId, SrcMeta); (KCallHash, SrcMeta) ]);
          (PPendingDry, [ (KDryrun, SrcTrue); (KJobId, SrcMeta); (KCallHash, SrcMeta) ]) ]
-       [ KConfig ] true true KResult [ KRunConfig; KStatus ]
+       [ KConfig ] true true true KResult [ KRunConfig; KStatus ]
        [ (KResult, ActReturn KResult); (KError, ActRaise KError); (KDryrun, ActPending) ].
+(** the earlier shape: a failed sub-execution is returned as a value of the _subrun_root_task job *)
+Definition value_handback : handback_cfg :=
+  mkHB (hb_run shipped_handback) (hb_extend shipped_handback) [ KConfig ] true true false KResult [ KRunConfig; KStatus ]
+       (hb_then shipped_handback).
 
 Fixpoint assoc_ps {A} (l : list (pstate * A)) (p : pstate) : option A :=
   match l with [] => None | (q, a) :: r => if pstate_eqb p q then Some a else assoc_ps r p end.
@@ -422,7 +428,12 @@ Definition root_task (h : handback_cfg) (new_execution : bool) (o : outcome) : t
   if negb new_execution then
     match assoc_ps (hb_extend h) (pstate_of o) with
     | Some l => match mk_dict o l with
-                | Some r => finish (dict_update d0 r)
+                | Some r =>
+                    match hb_root_extend_raises_error h, dict_get r KError with
+                    | true, Some (DErr e) => TaskRaises (Raise e)      (* the job fails with the inner error *)
+                    | true, Some _ => TaskRaises PyError
+                    | _, _ => finish (dict_update d0 r)
+                    end
                 | None => TaskRaises PyError
                 end
     | None => TaskRaises PyError                       (* extend_run: "Unexpected state" *)
@@ -617,6 +628,32 @@ Definition needs_root (parts : list concrete_part) (is_task_call is_scheduler_ca
     job plus one per lazy part (its expressions are evaluated with the same parent job) *)
 Definition top_jobs_unwrapped (lazy : concrete_part -> bool) : nat :=
   S (length (filter lazy all_parts)).
+
+(* ====================================================================== *)
+(** * Part 7: a second execution on the same backend                       *)
+(* ====================================================================== *)
+(** what the first execution leaves in the backend for the _subrun_root_task call: a value (the dict)
+    if the job returned, a recorded error if it failed *)
+Definition recorded_result (t : task_out) : cval :=
+  match t with TaskReturns _ => CVal 1 true true | TaskRaises _ => CErr 1 end.
+
+(** second execution, subrun at its default cache options, no equivalent job in the new execution yet:
+    the cache decision for the job decides between replaying the first execution's result (the
+    sub-workflow does not run) and running the sub-workflow again (inner outcome [o2]).
+    Returns what the caller observes and whether the sub-workflow ran. *)
+Definition second_execution_subrun (h : handback_cfg) (new_execution : bool) (o1 o2 : outcome) : observed * bool :=
+  let t1 := root_task h new_execution o1 in
+  match fst (get_cache shipped_check_cache shipped_getcache
+                       (root_task_jobopts shipped_subrun_opts (mkCall None None true true))
+                       (mkAns None (Some (1%Z, Some (recorded_result t1))) None)) with
+  | GHit _ _ _ => (subrun_observed h new_execution o1, false)
+  | _ => (subrun_observed h new_execution o2, true)
+  end.
+
+(** second execution of the same expression evaluated directly: a value is replayed, a failed call is
+    executed again (errors are not replayed from the backend) *)
+Definition second_execution_direct (h : handback_cfg) (o1 o2 : outcome) : observed * bool :=
+  match o1 with OVal v => (RetV v, false) | _ => (run_direct h o2, true) end.
 
 (* ====================================================================== *)
 (** * Decidable equalities used by the correspondence cases (harness)      *)
